@@ -59,6 +59,8 @@ func (e event) String() string {
 		return fmt.Sprintf("rm(%s)@%s", e.Tgt, e.At)
 	case "join":
 		return "join@" + e.At
+	case "rejoin":
+		return "rejoin-of-a-removed-member@" + e.At
 	case "updpin":
 		return "pin-update(c3->c4)+unpin(c3)@" + e.At
 	}
@@ -97,6 +99,8 @@ func alphabet(n int) []event {
 			event{Kind: "pin", At: "F", C: 1},
 			event{Kind: "unpin", At: "F", C: 0},
 			event{Kind: "join", At: "F"},
+			event{Kind: "rejoin", At: "L"},
+			event{Kind: "rejoin", At: "F"},
 			event{Kind: "addpresent", At: "L"},
 			event{Kind: "rm", At: "L", Tgt: "F"},
 			event{Kind: "rm", At: "F", Tgt: "L"},
@@ -422,13 +426,43 @@ func (w *world) apply(e event) bool {
 			w.refPins[src.String()] = "?"
 			w.viol = append(w.viol, finding{"info:unpin-error", err.Error()})
 		}
-	case "join":
+	case "join", "rejoin":
 		via := w.pick(e.At)
-		if via == nil || w.next >= len(w.hosts) {
+		if via == nil {
 			return false
 		}
-		idx := w.next
-		w.next++
+		var idx int
+		if e.Kind == "join" {
+			if w.next >= len(w.hosts) {
+				return false
+			}
+			idx = w.next
+			w.next++
+		} else {
+			// a member that was removed (or left) comes back under the same
+			// identity, as a new staging peer without data
+			idx = -1
+			for _, x := range w.members {
+				if !x.alive && !w.refSet[x.host.ID()] && x.host.ID() != via.host.ID() {
+					idx = x.idx
+				}
+			}
+			for _, x := range w.members {
+				if x.idx == idx && x.alive {
+					idx = -1 // already back
+				}
+			}
+			if idx < 0 {
+				return true // nobody to bring back: not applicable
+			}
+			for _, x := range w.members {
+				if x.idx == idx {
+					x.p.C.Shutdown(ctx) // (a removed peer shuts itself down; make sure)
+				}
+			}
+			w.settle(time.Second)
+			os.RemoveAll(fmt.Sprintf("%s/m%d/raft", w.scratch, idx))
+		}
 		m, err := w.startMember(idx, nil, true, fmt.Sprintf("%s/m%d", w.scratch, idx))
 		if err != nil {
 			w.fail("join-start-failed", "%v", err)
